@@ -449,6 +449,7 @@ func main() {
 	}
 	sort.Strings(allResults)
 	fmt.Fprintf(&b, "def allResults : List String := %s\n", ls(allResults, f.ResultValues))
+	cronrecFacts(&b) // C02 facts (cronrec.go)
 	b.WriteString("\nend Furiko.Facts\n")
 	if len(fails) > 0 {
 		for _, m := range fails {
